@@ -21,7 +21,7 @@ from vlib import build, run  # noqa: E402
 from vlib.props import PROPS  # noqa: E402
 
 # stages whose flavour is itself the monitor (linker wrapping, DSO snapshot) or another compiler stay out
-SUBSTITUTABLE = {"asan-full", "asan", "plain-O2", "plain-O0", "uchar-O2", "release-O3", "size-Os", "ubsan-O2", "tsan", "msan"}
+SUBSTITUTABLE = {"asan-full", "asan", "plain-O2", "plain-O0", "uchar-O2", "release-O3", "size-Os", "ubsan-O2", "tsan", "msan", "native-O3"}
 OUT = os.path.join(build.VERIF, "coverage")
 
 
